@@ -328,13 +328,19 @@ func (e *miniEval) run(stmts []ast.Stmt) (status int, rets []int64) {
 					if entries, ok := e.mapLit(ix.X); ok {
 						want := e.expr(ix.Index)
 						found := false
+						var hit ast.Expr
 						for _, kv := range entries {
 							if e.expr(kv.Key) == want {
 								found = true
+								hit = kv.Value
 							}
 						}
 						if id, isID := s.Lhs[1].(*ast.Ident); isID && id.Name != "_" {
 							e.env[id.Name] = b2i(found)
+						}
+						// the value: a scalar, or a struct whose fields become `v.field` (absent = zero)
+						if id, isID := s.Lhs[0].(*ast.Ident); isID && id.Name != "_" {
+							e.bindMapValue(id.Name, ix.X, hit)
 						}
 						break
 					}
@@ -382,6 +388,12 @@ func (e *miniEval) run(stmts []ast.Stmt) (status int, rets []int64) {
 			for i, l := range s.Lhs {
 				if id, ok := l.(*ast.Ident); ok {
 					e.env[id.Name] = vals[i]
+				} else if _, isSel := ast.Unparen(l).(*ast.SelectorExpr); isSel {
+					// a field: recorded as an effect, like the single assignment
+					e.assign(l, s.Tok, s.Rhs[i])
+					if _, tracked := e.env[core.ExprStr(l)]; tracked {
+						e.env[core.ExprStr(l)] = vals[i]
+					}
 				} else {
 					e.fail("tuple assignment to " + core.ExprStr(l))
 				}
@@ -966,4 +978,40 @@ func (e *miniEval) runHelper(call *ast.CallExpr, nres int) ([]int64, bool) {
 		return rets, true
 	}
 	return nil, false
+}
+
+// bindMapValue binds the result of a lookup in a constant map to a variable: scalars by value, struct
+// values field by field under `name.field` (the zero value when the key is absent or a field is omitted).
+func (e *miniEval) bindMapValue(name string, mapExpr ast.Expr, hit ast.Expr) {
+	var elem types.Type
+	if t := core.TypeOf(e.pk, mapExpr); t != nil {
+		if mt, ok := t.Underlying().(*types.Map); ok {
+			elem = mt.Elem()
+		}
+	}
+	if elem == nil {
+		return
+	}
+	if st, isStruct := elem.Underlying().(*types.Struct); isStruct {
+		for i := 0; i < st.NumFields(); i++ {
+			e.env[name+"."+st.Field(i).Name()] = 0
+		}
+		if cl, ok := ast.Unparen(hit).(*ast.CompositeLit); hit != nil && ok {
+			for i, el := range cl.Elts {
+				if kv, isKV := el.(*ast.KeyValueExpr); isKV {
+					e.env[name+"."+core.ExprStr(kv.Key)] = e.expr(kv.Value)
+				} else if i < st.NumFields() {
+					e.env[name+"."+st.Field(i).Name()] = e.expr(el)
+				}
+			}
+		}
+		return
+	}
+	if b, isB := elem.Underlying().(*types.Basic); isB && b.Info()&(types.IsInteger|types.IsBoolean|types.IsString) != 0 {
+		if hit == nil {
+			e.env[name] = 0
+		} else {
+			e.env[name] = e.expr(hit)
+		}
+	}
 }
